@@ -3,6 +3,7 @@ import GoCrypt.Props.C16
 import GoCrypt.Props.C03b
 import GoCrypt.Props.KdfIR
 import GoCrypt.Props.KdfIR2
+import GoCrypt.Props.DesIR
 
 /-!
 # C03 — classic crypt(3) schemes compute the same hashes as the reference libcrypt
@@ -105,4 +106,18 @@ namespace GoCrypt.C03
 #print axioms GoCrypt.KdfIR2.bcrypt_encode_ir_eq_model
 #print axioms GoCrypt.KdfIR2.bcrypt_ir_eq_bcryptDerive
 #print axioms GoCrypt.KdfIR2.bcrypt_key_tail_ir_eq_derive
+-- DES itself is the current code (Props/DesIR.lean): permute816/1616, keySchedules and Encrypt regenerated from des/descrypt/des.go = the table-driven model that C03b.encrypt_eq_fips
+-- proves equal to FIPS 46-3; the KdfIR2 theorems re-instantiated with the regenerated Encrypt as the primitive (`_full`)
+#print axioms GoCrypt.DesIRProps.permute816_ir_eq_model
+#print axioms GoCrypt.DesIRProps.permute1616_ir_eq_model
+#print axioms GoCrypt.DesIRProps.permute_any_rows
+#print axioms GoCrypt.DesIRProps.keySchedules_ir_eq_model
+#print axioms GoCrypt.DesIRProps.encrypt_ir_eq_model
+#print axioms GoCrypt.DesIRProps.desPrims_spec
+#print axioms GoCrypt.DesIRProps.runEncrypt_wraps
+#print axioms GoCrypt.DesIRProps.desext_key_ir_eq_model_full
+#print axioms GoCrypt.DesIRProps.desext_key_tail_ir_eq_derive_full
+#print axioms GoCrypt.DesIRProps.des_key_tail_ir_eq_derive_full
+#print axioms GoCrypt.DesIRProps.no_unknown_nodes
+#print axioms GoCrypt.DesIRProps.globals_defined
 end GoCrypt.C03
